@@ -43,11 +43,27 @@ pub fn hazmat(cx: &mut Ctx, args: &Args, rng: &mut Rng) -> i32 {
         } else {
             (0..8).map(|_| if rng.below(4) == 0 { mix(rng, 16, 1)[0].1.clone() } else { rng.bytes(16) }).collect()
         };
-        let kl: Vec<Vec<u8>> = if t == 0 {
+        let mut kl: Vec<Vec<u8>> = if t == 0 {
             (0..8).map(|j| (0..16).map(|i| (255 - (j * 16 + i)) as u8).collect()).collect()
         } else {
             (0..8).map(|_| rng.bytes(16)).collect()
         };
+        let mut bl = bl;
+        // relations between lanes (equal keys / equal blocks in some lanes): every other call
+        if t % 2 == 1 {
+            let (_, kp) = crate::rng::lane_pattern_k(rng, 8, t / 2);
+            let src = kl.clone();
+            for j in 0..8 {
+                kl[j] = src[kp[j]].clone();
+            }
+            if rng.below(2) == 0 {
+                let (_, bp) = crate::rng::lane_pattern(rng, 8);
+                let src = bl.clone();
+                for j in 0..8 {
+                    bl[j] = src[bp[j]].clone();
+                }
+            }
+        }
         for f in ["round_par", "inv_round_par"] {
             let r = catch(|| {
                 let mut b8 = Block8::default();
@@ -133,8 +149,17 @@ pub fn bcrypt(cx: &mut Ctx, args: &Args, rng: &mut Rng) -> i32 {
         cx.reset("bcrypt");
         // concretise: two keys and two salts of assorted lengths (1..72, incl. non multiples of 4)
         let lens = [1usize, 2, 3, 4, 5, 7, 8, 16, 17, 31, 55, 56, 57, 71, 72, 73, 100, 255];
-        let keys: Vec<Vec<u8>> = (0..2).map(|_| { let l = lens[rng.below(lens.len())]; if rng.below(5) == 0 { vec![0u8; l] } else { rng.bytes(l) } }).collect();
-        let salts: Vec<Vec<u8>> = (0..2).map(|i| { let l = if i == 0 { 16 } else { lens[rng.below(lens.len())] }; rng.bytes(l) }).collect();
+        // value classes: random, all-zero, zero prefix / suffix (both are consumed cyclically, 4 bytes at a time), word-sparse
+        let class = |rng: &mut Rng, l: usize| -> Vec<u8> {
+            match rng.below(10) {
+                0 | 1 => vec![0u8; l],
+                2 | 3 | 4 => crate::rng::zero_affix(rng, l).1,
+                5 => crate::rng::wordmask(rng, l).1,
+                _ => rng.bytes(l),
+            }
+        };
+        let keys: Vec<Vec<u8>> = (0..2).map(|_| { let l = lens[rng.below(lens.len())]; class(rng, l) }).collect();
+        let salts: Vec<Vec<u8>> = (0..2).map(|i| { let l = if i == 0 { 16 } else { lens[rng.below(lens.len())] }; if rng.below(2) == 0 { rng.bytes(l) } else { class(rng, l) } }).collect();
         let id = cx.fresh_id();
         let mut st = match catch(Blowfish::bc_init_state) {
             Ok(s) => { cx.emit(json!({"ev":"bc","fn":"init","id":id,"outcome":"ok"})); s }
